@@ -148,3 +148,20 @@ package builder
 //@     invariant done: forall k: int :: 0 <= k && k < i && old(apply(selector, schemas, builders[k])) ==> builderCore(builders[k], old(builders[k])) && builders[k].Options == old(builders[k].Options) && builders[k].Constructor.Args == old(builders[k].Constructor.Args) && len(builders[k].Constructor.Assignments) >= old(len(builders[k].Constructor.Assignments))
 //@     invariant todo: forall k: int :: i < k && k < len(builders) ==> builders[k] == old(builders[k])
 //@     invariant current: builderCore(builders[i], old(builders[i])) && builders[i].Options == old(builders[i].Options) && builders[i].Constructor.Args == old(builders[i].Constructor.Args) && len(builders[i].Constructor.Assignments) >= old(len(builders[i].Constructor.Assignments))
+//
+// add_option: the configured option is converted for the schemas and builders the rule was given and for
+// THIS builder (its object and package are what paths are resolved against); a selected builder gets exactly
+// one more option - the earlier ones, its constructor, name, package, object, properties and factories are
+// kept; the others come back as they were; no builder is added or removed.
+//@ func AddOption$1
+//@   property C17
+//@   requires selector != nil
+//@   at-call "veneers.Option.AsIR" converted: $arg0 == newOption && $arg1 == schemas && $arg2 == builders && $arg3.For == builders[i].For && $arg3.Package == builders[i].Package
+//@   modifies builders[*], spare-capacity
+//@   ensures  same: result.1 == nil ==> result.0 == builders
+//@   ensures  others: forall i: int :: 0 <= i && i < len(builders) && !old(apply(selector, schemas, builders[i])) ==> builders[i] == old(builders[i])
+//@   ensures  selected: result.1 == nil ==> (forall i: int :: 0 <= i && i < len(builders) && old(apply(selector, schemas, builders[i])) ==> builderCore(builders[i], old(builders[i])) && builders[i].Constructor == old(builders[i].Constructor) && len(builders[i].Options) == old(len(builders[i].Options)) + 1)
+//@   loop 0:
+//@     invariant doneothers: forall i: int :: 0 <= i && i <= $i && !old(apply(selector, schemas, builders[i])) ==> builders[i] == old(builders[i])
+//@     invariant done: forall i: int :: 0 <= i && i <= $i && old(apply(selector, schemas, builders[i])) ==> builderCore(builders[i], old(builders[i])) && builders[i].Constructor == old(builders[i].Constructor) && len(builders[i].Options) == old(len(builders[i].Options)) + 1
+//@     invariant todo: forall i: int :: $i < i && i < len(builders) ==> builders[i] == old(builders[i])
